@@ -24,7 +24,7 @@ def s(xs):
 
 
 def cfg(name, kinds, faults, script="none", conns=(0, 1), versions=(20,), maxcookie=3, budget=3, caps="CapsOne",
-        v0=20, v1=20, cserials=(0,), events=(0,), wrong=(), inq=1, objuuids=(101, 102)):
+        v0=20, v1=20, cserials=(0,), events=(0,), wrong=(), inq=1, objuuids=(101, 102), initserial=0, wrap=False):
     text = f"""SPECIFICATION Spec
 CONSTANTS
   B = 4
@@ -44,9 +44,11 @@ CONSTANTS
   Faults = {s(faults)}
   WrongKinds = {s(wrong)}
   MsgBudget = {budget}
+  InitSerial = {initserial}
   ScriptSel = "{script}"
   V0 = {v0}
   V1 = {v1}
+{"SerialWrap <- SW3" if wrap else ""}
 VIEW view
 INVARIANTS ObserverOk NoPanicSite BoundaryConsistent FlagsOk StoppedClean
 CHECK_DEADLOCK FALSE
@@ -65,6 +67,10 @@ cfg("MC_Lifecycle", sorted(set(REG[:5] + ["CallFunction", "SubscribeEvent", "Sub
 cfg("MC_Abuse", ALL, [], script="svc", budget=2, maxcookie=4, wrong=WRONG, caps="CapsOne")
 for (a, b) in [(14, 20), (20, 14), (15, 19), (17, 18)]:
     cfg(f"MC_Versions_{a}_{b}", GATED, [], script="svc", budget=2, v0=a, v1=b, conns=(0, 1))
+
+# the broker's call serial counter wraps around and skips occupied slots (serials 0..3; at most three calls can be in flight; a long-pending call is skipped when the counter comes round)
+cfg("MC_SerialWrap", ["CallFunction", "CallFunctionReply"], [], script="svc", conns=(0, 1, 2), cserials=(0,), budget=8,
+    initserial=3, wrap=True)
 
 # thorough configurations (target: <= ~20 min at 16 workers each)
 cfg("MC_Registry_thorough", REG, ALLF, conns=(0, 1, 2), versions=(14, 20), maxcookie=4, budget=4)
